@@ -186,6 +186,7 @@ def guarded(oracle, case, stats):
         except (ValueError, OSError):
             armed = False
     try:
+        _logging_level_for(case)
         return _guarded(oracle, case, stats)
     except _Watchdog:
         # a budget hit alone is inconclusive (the machine may be loaded): the case is run again, alone, with a much longer limit;
@@ -323,6 +324,19 @@ def run_units(func, arglist, procs=None):
         for st in pool.imap_unordered(_call, [(func, a) for a in arglist]):
             total.merge(st)
     return total
+
+
+def _logging_level_for(case):
+    """about every second case runs with the root logger at DEBUG (output discarded; which cases is a function of the case alone, so replays
+    agree): what the library returns must not depend on whether the host application has debug logging switched on"""
+    import logging
+    import zlib
+    root = logging.getLogger()
+    if not any(isinstance(h, logging.NullHandler) for h in root.handlers):
+        root.addHandler(logging.NullHandler())
+    odd = zlib.crc32(repr(case)[:4000].encode("utf8", "surrogatepass")) & 1
+    root.setLevel(logging.DEBUG if odd else logging.WARNING)
+    return odd
 
 
 def _call(fa):
